@@ -205,7 +205,7 @@ pub fn parse(data: &str) -> Result<KyGElements, Error> {
                         },
                     );
                 }
-                _ => println!("Desconocido"),
+                _ => log::warn!("Línea de KyGananciasSolares.txt con tipo de elemento desconocido: {}", line),
             };
         }
         // Ganancias solares de hueco
